@@ -5,6 +5,7 @@ import (
 	"fmt"
 	"os"
 
+	"github.com/anyproto/any-sync/commonspace/headsync/headstorage"
 	"github.com/anyproto/any-sync/commonspace/object/tree/objecttree"
 	"github.com/anyproto/any-sync/commonspace/object/tree/treechangeproto"
 	"github.com/anyproto/any-sync/commonspace/object/tree/treestorage"
@@ -22,6 +23,25 @@ type gen struct {
 	queue  []func() *opSpec
 	ts     int64
 	nTrees int
+	// sizeWanted > 0: the next remote batch has exactly this many changes
+	sizeWanted int
+	derived    map[string]bool // trees bound to a parent
+	queued     map[string]bool // trees whose heads entry is marked queued-for-deletion
+}
+
+func sizeBucket(prefix string, n int) string {
+	switch {
+	case n <= 4:
+		return fmt.Sprintf("%s.%d", prefix, n)
+	case n <= 128:
+		return prefix + ".5-128"
+	case n <= 512:
+		return prefix + ".129-512"
+	case n <= 1024:
+		return prefix + ".513-1024"
+	default:
+		return prefix + ".1025+"
+	}
 }
 
 type forkPoint struct {
@@ -31,7 +51,7 @@ type forkPoint struct {
 }
 
 func newGen(rn *runner) *gen {
-	return &gen{rn: rn, snaps: map[string]int{}, ts: 1_700_000_000}
+	return &gen{rn: rn, snaps: map[string]int{}, ts: 1_700_000_000, derived: map[string]bool{}, queued: map[string]bool{}}
 }
 
 func (g *gen) r() interface {
@@ -105,7 +125,11 @@ func (g *gen) next() *opSpec {
 	if r.Chance(15) {
 		g.markFork()
 	}
-	switch x := r.Intn(100); {
+	switch x := r.Intn(108); {
+	case x >= 104:
+		return g.noErrorAdd()
+	case x >= 100:
+		return g.treeCreateChild()
 	case x < 10:
 		return g.treeCreate()
 	case x < 22:
@@ -384,6 +408,19 @@ func (g *gen) remoteAdd(rebuild bool) *opSpec {
 	return g.remoteFrom(g.markFork(), id, "remote-add")
 }
 
+// remoteSized: a single remote add of exactly n new changes (batch sizes on both sides of anything a
+// storage layer might chunk by: 1, 2, ~50, 513, 600, 1100, …) into an existing tree storage.
+func (g *gen) remoteSized(n int) *opSpec {
+	id := g.pickTree(true)
+	if id == "" {
+		return nil
+	}
+	g.sizeWanted = n
+	op := g.remoteFrom(g.markFork(), id, "remote-add")
+	g.sizeWanted = 0
+	return op
+}
+
 func (g *gen) remoteFrom(fp forkPoint, id string, kind string) *opSpec {
 	stillThere := false
 	for _, t := range g.trees {
@@ -400,11 +437,18 @@ func (g *gen) remoteFrom(fp forkPoint, id string, kind string) *opSpec {
 		g.rn.fatal("replica tree: " + err.Error())
 	}
 	n := 1 + g.r().Intn(4)
+	if g.r().Chance(8) {
+		n = 20 + g.r().Intn(60)
+	}
+	if g.sizeWanted > 0 {
+		n = g.sizeWanted
+	}
 	snapAt := -1
-	if g.r().Chance(20) {
+	if g.r().Chance(20) && g.sizeWanted == 0 {
 		snapAt = g.r().Intn(n)
 	}
 	raws := g.grow(bt, n, snapAt)
+	g.rn.r.Count(sizeBucket("remote.size", n))
 	heads := append([]string{}, bt.Heads()...)
 	bt.Lock()
 	path, _ := bt.SnapshotPath()
@@ -412,7 +456,7 @@ func (g *gen) remoteFrom(fp forkPoint, id string, kind string) *opSpec {
 	path = append([]string{}, path...)
 	g.dropReplica(b)
 	variant := "full"
-	if n >= 2 && g.r().Chance(15) {
+	if n >= 2 && g.sizeWanted == 0 && g.r().Chance(15) {
 		raws = raws[1:]
 		variant = "gap"
 	}
@@ -469,6 +513,134 @@ func (g *gen) remoteFrom(fp forkPoint, id string, kind string) *opSpec {
 		model: &modelOp{kind: kind, tree: id},
 	}
 	return op
+}
+
+// --- storage.AddAllNoError (the migrator's entry point): a batch written straight to the tree storage,
+// its first element a change that is stored already (skipped with "document exists"), the rest new
+func (g *gen) noErrorAdd() *opSpec {
+	id := g.pickTree(true)
+	if id == "" {
+		return nil
+	}
+	fx := g.rn.fx
+	b := g.replica(g.rn.main.dir)
+	bt, err := b.tree(id)
+	if err != nil {
+		g.rn.fatal("replica tree: " + err.Error())
+	}
+	dupId := bt.Heads()[0]
+	dup, err := bt.Storage().Get(ctx, dupId)
+	if err != nil {
+		g.rn.fatal("replica get: " + err.Error())
+	}
+	dup.RawChange = append([]byte{}, dup.RawChange...)
+	n := 1 + g.r().Intn(3)
+	var added []objecttree.StorageChange
+	for i := 0; i < n; i++ {
+		bt.Lock()
+		res, err := bt.AddContent(ctx, g.content(false))
+		bt.Unlock()
+		if err != nil {
+			g.rn.fatal("replica AddContent: " + err.Error())
+		}
+		for _, c := range res.Added {
+			c.RawChange = append([]byte{}, c.RawChange...)
+			added = append(added, c)
+		}
+	}
+	heads := append([]string{}, bt.Heads()...)
+	cs := bt.Root().Id
+	g.dropReplica(b)
+	withDup := g.r().Chance(80)
+	batch := added
+	if withDup {
+		batch = append([]objecttree.StorageChange{dup}, added...)
+	}
+	var op *opSpec
+	op = &opSpec{
+		kind: "noerror-add", desc: fmt.Sprintf("noerror-add t=%s n=%d dup=%v", fx.in.get(id), n, withDup),
+		allowDupErr: true,
+		run: func(w *World) error {
+			st, err := w.ss.TreeStorage(ctx, id)
+			if err != nil {
+				return err
+			}
+			in := make([]objecttree.StorageChange, len(batch))
+			copy(in, batch)
+			if err := st.AddAllNoError(ctx, in, heads, cs); err != nil {
+				return err
+			}
+			// the tree object, if any, was bypassed: it is rebuilt from storage at its next use
+			delete(w.trees, id)
+			if w == g.rn.main {
+				op.added = op.added[:0]
+				for _, c := range added {
+					op.added = append(op.added, c.Id)
+				}
+				op.heads = heads
+			}
+			return nil
+		},
+		model: &modelOp{kind: "noerror-add", tree: id},
+	}
+	if withDup {
+		op.model.dups = []string{dupId}
+	}
+	return op
+}
+
+// --- a derived tree bound to a parent (CreateStorageTx's parent checks); sometimes the parent was
+// queued for deletion before, so that the child is marked in the same transaction
+func (g *gen) treeCreateChild() *opSpec {
+	var parents []string
+	for _, t := range g.trees {
+		if !g.derived[t] {
+			parents = append(parents, t)
+		}
+	}
+	if len(parents) == 0 {
+		return nil
+	}
+	parent := parents[g.r().Intn(len(parents))]
+	g.nTrees++
+	root, err := objecttree.DeriveObjectTreeRoot(objecttree.ObjectTreeDerivePayload{
+		ChangeType:    "verif-child",
+		ChangePayload: []byte(fmt.Sprintf("child-%d-%d", g.nTrees, g.ts)),
+		SpaceId:       g.rn.fx.spaceId,
+		ParentId:      parent,
+	}, g.rn.main.acl)
+	if err != nil {
+		g.rn.fatal("DeriveObjectTreeRoot: " + err.Error())
+	}
+	id := root.Id
+	queued := g.queued[parent]
+	if !queued && g.r().Chance(40) {
+		// what deletionstate does when a delete request arrives: a single upsert of the parent's entry
+		st := headstorage.DeletedStatusQueued
+		if err := g.rn.main.ss.HeadStorage().UpdateEntry(ctx, headstorage.HeadsUpdate{Id: parent, DeletedStatus: &st}); err != nil {
+			g.rn.fatal("mark queued: " + err.Error())
+		}
+		g.queued[parent] = true
+		queued = true
+	}
+	return &opSpec{
+		kind: "tree-create-child", desc: fmt.Sprintf("tree-create-child t=%s parent=%s queued=%v", g.rn.fx.in.get(id), g.rn.fx.in.get(parent), queued),
+		trees: []string{id},
+		run: func(w *World) error {
+			st, err := w.ss.CreateTreeStorage(ctx, treestorage.TreeStorageCreatePayload{RootRawChange: root, Heads: []string{id}})
+			if err != nil {
+				return err
+			}
+			t, err := objecttree.BuildObjectTree(st, w.acl)
+			if err != nil {
+				return err
+			}
+			w.trees[id] = t
+			return nil
+		},
+		after: func() { g.trees = append(g.trees, id); g.derived[id] = true },
+		model: &modelOp{kind: "tree-create-child", tree: id, queued: queued},
+	}
 }
 
 // --- ACL record add: the owner creates an invite record; AddRawRecord applies and persists it
